@@ -9,7 +9,7 @@ use crate::model::{Model, Res};
 use crate::render::UseKind;
 use crate::runner::*;
 use crate::spec::*;
-use proptest::strategy::Strategy;
+use proptest::prelude::*;
 use serde_json::Value;
 use std::collections::{BTreeMap, BTreeSet};
 
@@ -29,6 +29,11 @@ pub fn cfg() -> GenCfg {
 #[derive(Clone, Debug, serde::Serialize, serde::Deserialize)]
 pub struct Case {
     pub ws: WorkspaceSpec,
+    /// conftest.py / helper documents (bit = file index mod 16) that the client closes again before
+    /// completion is requested; every requesting document is then changed once (same text), so its
+    /// offered set is computed after the closes. Closing is invisible (C07): expectations are the same.
+    #[serde(default)]
+    pub close_mask: u16,
 }
 
 fn labels_of(v: &Value) -> Vec<(String, String)> {
@@ -155,6 +160,34 @@ pub fn check_case(ctx: &Ctx, c: &Case, info: &mut CaseInfo) -> Outcome {
         Err(i) => return infra_outcome(i, &ctx.inconclusive),
     };
     let sens_global = crate::props::c08::order_sensitive_names(&p.m);
+    let mut closed = 0;
+    for fi in 0..p.m.ws.files.len() {
+        let loc = p.m.ws.files[fi].loc.clone();
+        if loc.is_plugin() || loc.is_third_party() || loc.is_test() || (c.close_mask >> (fi % 16)) & 1 == 0 {
+            continue;
+        }
+        let path = p.path(fi);
+        if p.srv.close(&path).is_err() {
+            return infra_outcome(Infra::Inconclusive("didClose".into()), &ctx.inconclusive);
+        }
+        closed += 1;
+    }
+    if closed > 0 {
+        info.classes.push("session closes conftest / helper documents first".into());
+        for fi in 0..p.m.ws.files.len() {
+            let loc = p.m.ws.files[fi].loc.clone();
+            if loc.is_plugin() || loc.is_third_party() {
+                continue;
+            }
+            let still_open = loc.is_test() || (c.close_mask >> (fi % 16)) & 1 == 0;
+            if still_open {
+                let (path, text) = (p.path(fi), p.m.rendered[fi].text.clone());
+                if let Err(e) = p.srv.change_sync(&path, 2, &text, 300) {
+                    return infra_outcome(classify(e, "didChange"), &ctx.inconclusive);
+                }
+            }
+        }
+    }
     let mut known: BTreeSet<String> = BTreeSet::new();
     let mut detail = None;
     for fi in 0..p.m.ws.files.len() {
@@ -287,7 +320,7 @@ pub fn check_case(ctx: &Ctx, c: &Case, info: &mut CaseInfo) -> Outcome {
 }
 
 pub fn run(ctx: &Ctx) {
-    ctx.run_prop_shrink("server", ctx.tier.pick(200, 6_000), 8, 200, || workspace(cfg()).prop_map(|ws| Case { ws }), |c, info| check_case(ctx, c, info));
+    ctx.run_prop_shrink("server", ctx.tier.pick(200, 6_000), 8, 200, || (workspace(cfg()), prop_oneof![1 => Just(0u16), 1 => proptest::num::u16::ANY]).prop_map(|(ws, close_mask)| Case { ws, close_mask }), |c, info| check_case(ctx, c, info));
 }
 
 pub fn judge_replay(ctx: &Ctx, sub: &str, case: &Value) -> Option<Outcome> {
